@@ -60,6 +60,32 @@ def gen(ctx):
                 add([(g.El(name=p), '>'), (child, '')], cfg)
                 add([(g.El(name=p), '>'), (g.El(name=None, repeat=2, **deco), '>'), (g.El(name=None, **deco), '')], cfg)
     add([(g.El(name=None, classes=['top']), '')], {})
+    # implicit names at top level under a context element (config.context['name'] plays the parent) and under a
+    # user-defined inline list (the lower-cased parent is looked up in options['inlineElements'] as given)
+    def add_ctx(stmt, cfg, parent, inline=None):
+        saved = set(g.INLINE)
+        if inline is not None:
+            g.INLINE.clear()
+            g.INLINE.update(inline)
+        try:
+            exp = g.preorder(g.unroll(g.denote_stmt(stmt), parent_name=parent))
+        finally:
+            g.INLINE.clear()
+            g.INLINE.update(saved)
+        abbr = g.render(stmt)
+        cases.append((abbr, cfg, exp))
+        ctx.nontrivial(abbr + '@' + repr(sorted(cfg.items(), key=str)))
+        ctx.cover('implicit-context' if inline is None else 'implicit-inline-list')
+    for cname in sorted(g.IMPLICIT_DOC) + ['div', 'em', 'UL', 'Table', 'custom', '']:
+        for deco in (dict(classes=['c']), dict(id='i')):
+            st = [(g.El(name=None, **deco), '>'), (g.El(name=None, **deco), '+'), (g.El(name='b', **deco), '>'),
+                  (g.El(name=None, repeat=2, **deco), '^^^'), (g.El(name=None, **deco), '')]
+            for fmt in (True, False):
+                add_ctx(st, {'context': {'name': cname}, 'options': {'output.format': fmt}}, cname)
+    for inl in (['x-y', 'custom'], ['X'], []):
+        for p in ('x-y', 'custom', 'X', 'x', 'em', 'div'):
+            st = [(g.El(name=p), '>'), (g.El(name=None, classes=['c']), '>'), (g.El(name=None, id='i'), '')]
+            add_ctx(st, {'options': {'inlineElements': list(inl), 'output.format': False}}, None, inline=[w for w in inl])
     # snippet-backed names (one element of the same name) and the `/` mark, as parents and used twice
     from emmet.markup.implicit_tag import ELEMENT_MAP
     snips = [s for s in g.same_name_snippets() if s[0] not in ELEMENT_MAP or s[0] in g.IMPLICIT_DOC]
@@ -98,10 +124,12 @@ def gen(ctx):
 
 
 def run(ctx):
-    ok = ctx.build(['props/C01.vo', 'props/C01String.vo', 'run/MarkupRun.vo'])
+    ok = ctx.build(['props/C01.vo', 'props/C01String.vo', 'props/C01Expand.vo', 'props/C01Implicit.vo', 'run/MarkupRun.vo'])
     if ok:
         ctx.obligations('props/C01.v')
         ctx.obligations('props/C01String.v')
+        ctx.obligations('props/C01Expand.v')
+        ctx.obligations('props/C01Implicit.v')
     model = ctx.model('markup') if ok else None
     ctx.cov['rule'] = ('statements generated from an AST (elements, > + ^ groups, *N, nameless elements), rendered to text; '
                        'exhaustive operator skeletons up to the stated size, implicit-name table, random large statements; '
